@@ -63,7 +63,7 @@ def expected_groups(chroms, names):
     return out
 
 
-def sym_bins(ctx, chroms, names, depth=True):
+def sym_bins(ctx, chroms, names, depth=True, depth_lo=0.01):
     n = len(chroms)
     cols = {"chromosome": chroms, "start": [], "end": [], "gene": names, "log2": [], "weight": []}
     if depth:
@@ -81,7 +81,7 @@ def sym_bins(ctx, chroms, names, depth=True):
         cols["log2"].append(ctx.real(f"l{i}", -30, 10))
         cols["weight"].append(ctx.real(f"w{i}", 0.001, 1))
         if depth:
-            cols["depth"].append(ctx.real(f"d{i}", 0.01, 1000))
+            cols["depth"].append(ctx.real(f"d{i}", depth_lo, 1000))
     return cols
 
 
@@ -110,13 +110,20 @@ def h_by_gene(ctx, chroms, first, filtered=False):
     ctx.cover("two genes adjacent", any(a[0] in ("G1", "G2") and b[0] in ("G1", "G2") for a, b in zip(got[:-1], got[1:])))
 
 
-def h_genemetrics(ctx, chroms, first, min_probes, skip_low):
+def h_genemetrics(ctx, chroms, first, min_probes, skip_low, sex=(False, True), zero_depth=False):
+    """sex = (male reference, female sample): the sex adjustment options.  chrX bins are first
+    brought to the autosomal level for the sample's sex (shift_xx, C15); everything else is then
+    decided on the shifted values."""
     names = layout(ctx, chroms, first)
-    cols = sym_bins(ctx, chroms, names)
+    cols = sym_bins(ctx, chroms, names, depth_lo=0 if zero_depth else 0.01)
     thr = ctx.real("thr", 0, 5)
     cna = make_cna(cols)
+    hapx, female = sex
+    level = (1 if female else 0) if hapx else (0 if female else -1)
+    raw = cols["log2"]
+    cols = dict(cols, log2=[(l - level) if c == "chrX" else l for c, l in zip(chroms, raw)])
     try:
-        table = reports.do_genemetrics(cna, None, thr, min_probes, skip_low, False, True)
+        table = reports.do_genemetrics(cna, None, thr, min_probes, skip_low, hapx, female)
     except Exception as exc:
         ctx.claim(False, f"do_genemetrics raised {type(exc).__name__}")
         return
@@ -155,6 +162,8 @@ def h_genemetrics(ctx, chroms, first, min_probes, skip_low):
             ctx.cover("gene not reported")
     if skip_low:
         ctx.cover("low bin skipped", Or(*[c < low for c in cols["log2"]]))
+        if zero_depth:
+            ctx.cover("zero-depth bin skipped", Or(*[d == 0 for d in cols["depth"]]))
 
 
 def h_genemetrics_seg(ctx, chroms, first):
@@ -297,8 +306,10 @@ HARNESSES = [
     Harness(
         "genemetrics",
         h_genemetrics,
-        _cfgs([ONE4], [ONE5, ["chr1"] * 2 + ["chr2"] * 2], [{"min_probes": 1, "skip_low": False}, {"min_probes": 2, "skip_low": True}, {"min_probes": 3, "skip_low": False, "_t": True}]),
-        covers=["gene reported", "gene not reported", "low bin skipped"],
+        _cfgs([ONE4], [ONE5, ["chr1"] * 2 + ["chr2"] * 2], [{"min_probes": 1, "skip_low": False}, {"min_probes": 2, "skip_low": True}, {"min_probes": 3, "skip_low": False, "_t": True}])
+        + [dict(c, zero_depth=True) for c in _cfgs([["chr1"] * 3], [ONE4], [{"min_probes": 1, "skip_low": True}]) if c["first"][0] in ("G1", "Antitarget")]
+        + _cfgs([["chr1", "chrX", "chrX"]], [["chr1", "chr1", "chrX", "chrX"]], [{"min_probes": 1, "skip_low": False, "sex": (False, False)}, {"min_probes": 1, "skip_low": True, "sex": (True, True), "_t": True}, {"min_probes": 1, "skip_low": False, "sex": (True, False), "_t": True}]),
+        covers=["gene reported", "gene not reported", "low bin skipped", "zero-depth bin skipped"],
         wall_s=240,
         thorough_wall_s=1500,
     ),
